@@ -99,7 +99,7 @@ func TestC19(t *testing.T) {
 	if os.Getenv("VERIF_TIER") == "thorough" {
 		maxLen = 8 << 20
 	}
-	col := ev.Get("C19", "output", "1-6 jobs x 1-4 tasks running at the same time through the real TaskRunner; each task has 1-4 commands, each 'vhelper emit <spec>' (a generated sequence of stdout/stderr chunks with pauses; sizes 0 B to 300 KB, 8 MB in the thorough tier; partial last lines; arbitrary bytes or valid UTF-8) an interpreter builtin (echo/printf), a child that re-opens /dev/stdout or /dev/stderr by path (> and >>), and emit commands whose streams the script merges (2>&1, 1>&2: the log must keep the order of the writes); every chunk starts with a (job,task,stream,#) marker; task names over letters/digits/_-. space and non-ASCII, in a quarter of the cases two names of one job that differ in a single character (space/underscore, case, accents, CJK); oracle: FileOutputStore.Reader(job,task,stream) equals the concatenation, in order, of that task's chunks for that stream over all its commands, GET /job/logs returns the same as strings (UTF-8 tasks), a task the job does not have and an unknown job give 404; in half of the cases a second runner is started from a store that knows the jobs but not their tasks' start (a crash between log write and state save) and must return the same logs; a sixth of the tasks end with a failing command (their output up to it must still be complete) and half of the cases run a second round of the same jobs on the same store; non-trivial = >=64 KiB on a stream or >=2 commands or both streams used, with >=2 tasks writing at once; distinct by (shape of the case)")
+	col := ev.Get("C19", "output", "1-6 jobs x 1-4 tasks running at the same time through the real TaskRunner; each task has 1-4 commands, each 'vhelper emit <spec>' (a generated sequence of stdout/stderr chunks with pauses; sizes 0 B to 300 KB, 8 MB in the thorough tier; partial last lines; arbitrary bytes or valid UTF-8) an interpreter builtin (echo/printf), a child that re-opens /dev/stdout or /dev/stderr by path (> and >>), and emit commands whose streams the script merges (2>&1, 1>&2: the log must keep the order of the writes); every chunk starts with a (job,task,stream,#) marker; task names over letters/digits/_-. space and non-ASCII, in a quarter of the cases two names of one job that differ in a single character (space/underscore, case, accents, CJK); oracle: FileOutputStore.Reader(job,task,stream) equals the concatenation, in order, of that task's chunks for that stream over all its commands, GET /job/logs (with the job id in its canonical or another accepted spelling: upper case, braces, urn:uuid:, without hyphens) returns the same as strings (UTF-8 tasks), a task the job does not have and an unknown job give 404; in half of the cases a second runner is started from a store that knows the jobs but not their tasks' start (a crash between log write and state save) and must return the same logs; a sixth of the tasks end with a failing command (their output up to it must still be complete) and half of the cases run a second round of the same jobs on the same store; non-trivial = >=64 KiB on a stream or >=2 commands or both streams used, with >=2 tasks writing at once; distinct by (shape of the case)")
 	vh := helper(t)
 	rapid.Check(t, func(rt *rapid.T) {
 		nJobs := rapid.IntRange(1, 6).Draw(rt, "nJobs")
@@ -304,7 +304,22 @@ func checkOutputs(rt *rapid.T, w *realWorld, ids []uuid.UUID, expects [][]taskEx
 					rt.Fatalf("round %d job %d task %d (%d commands) %s: the log store returns %d bytes, the task wrote %d; first difference at offset %d; foreign marker present: %v", round, j, ti, te.cmds, st.name, len(got), len(st.want), firstDiff(got, st.want), foreignMarker(got, j, ti))
 				}
 			}
-			code, body := w.get("/job/logs?id=" + id.String() + "&task=" + url.QueryEscape(te.name))
+			// the id in any spelling the API accepts (a refused spelling is fine; an accepted one names the same job)
+			spelled := id.String()
+			switch (j + ti + round) % 5 {
+			case 1:
+				spelled = strings.ToUpper(spelled)
+			case 2:
+				spelled = "{" + spelled + "}"
+			case 3:
+				spelled = "urn:uuid:" + spelled
+			case 4:
+				spelled = strings.ReplaceAll(spelled, "-", "")
+			}
+			code, body := w.get("/job/logs?id=" + url.QueryEscape(spelled) + "&task=" + url.QueryEscape(te.name))
+			if code != 200 && spelled != id.String() {
+				code, body = w.get("/job/logs?id=" + id.String() + "&task=" + url.QueryEscape(te.name))
+			}
 			if code != 200 {
 				rt.Fatalf("round %d job %d task %d: GET /job/logs -> %d", round, j, ti, code)
 			}
